@@ -67,7 +67,7 @@ def walk_case(db_idx, roots, api, client=None, version="v2c"):
         else:
             client, sender = world.make_client(world.v3_user(level, method)[1], ag.handle)
     else:
-        sender = client.sender
+        sender = world.sender_of(client)
         sender.handle = ag.handle
         sender.calls = []
     sender.limit = len(db) + len(roots) + 3
